@@ -293,6 +293,43 @@ func RunC08(env *Env, job *C08Job) *C08Res {
 					}
 					if !ok || want != rig.DataKey(data) {
 						viol(fmt.Sprintf("C08|restored-unsigned-content|%s|%s", pipe, where), ctx+fmt.Sprintf("\nrestoring %s succeeded and returned %s; the content signed under that header is %q", r.Name, rig.DataKey(data), want))
+						bad = true
+						break
+					}
+				}
+			}
+			if !bad {
+				// the same through the file API (Open + Read until EOF + Close): the streaming read path hands the
+				// restore a pipe, so "an error" has to arrive at the reader, not only at the restore's caller
+				vs.ComposeFromIndex()
+				rows, _ := rig.DumpIndex(vs.Index)
+				for _, r := range rows {
+					if vs.AFS == nil {
+						break
+					}
+					if r.Deleted == 1 || r.Typeflag != int64(tar.TypeReg) || r.Linkname != "" {
+						continue
+					}
+					pax := map[string]string{}
+					_ = json.Unmarshal([]byte(r.Pax), &pax)
+					var data []byte
+					var rerr error
+					_, pan := Guard(func() error { data, rerr = rig.ReadFile(vs.AFS, rig.NormName(r.Name)); return nil })
+					vsync.Quiesce()
+					if pan != "" {
+						viol(fmt.Sprintf("C08|read-panic|%s|%s", pipe, where), ctx+"\n"+pan)
+						break
+					}
+					if rerr != nil {
+						continue
+					}
+					want, ok := contents[pax["STFS.Signature"]]
+					if r.Size == 0 && len(data) == 0 {
+						continue
+					}
+					if !ok || want != rig.DataKey(data) {
+						_, _, ferr := fetchAt(vs, r.Record, r.Block)
+						viol(fmt.Sprintf("C08|read-unsigned-content|%s|%s", pipe, where), ctx+fmt.Sprintf("\nOpen+Read+Close of %s reported no error and returned %s; the content signed under that header is %q (a restore of the same position reports: %v)", r.Name, rig.DataKey(data), want, ferr))
 						break
 					}
 				}
